@@ -95,6 +95,11 @@ func captureCorpus(thorough bool) []wireBody {
 		{"kilobyte", KServer, CompNone, []int{3}, []int{1500, 3}, false, false},
 		{"client-kilobyte", KClient, CompNone, []int{1500, 3}, []int{3}, false, false},
 	}
+	// two small messages, then one of a few KiB, then more (a reader that adapts to the stream's history)
+	scenarios = append(scenarios,
+		corpusScenario{"small-small-mid-more", KServer, CompNone, []int{3}, []int{10, 20, 2000, 30, 5}, false, true},
+		corpusScenario{"client-small-small-mid-more", KClient, CompNone, []int{10, 20, 3000, 30, 5}, []int{3}, false, false},
+	)
 	// a message of exactly 1 MiB whose every even-length prefix is a valid message, second of its stream
 	scenarios = append(scenarios,
 		corpusScenario{"mebibyte", KServer, CompNone, []int{3}, []int{3, -1 << 20}, false, false},
